@@ -134,12 +134,12 @@ theorem width_certificate (s : STGraph) (hwf : STWF s) (demand f : Edge → Nat)
   FP.width_certificate s hwf demand f hf A hA hAact hcost
 
 /-- the demands `stDAG.get_width(source_sink_edges ∪ ignored)` puts on the min-flow instance are the
-indicator of the active edges (at least one edge remaining: the weight dict is non-empty) -/
-theorem dag_width_demands (inp : FlowInput) (e : Edge) (he : e ∈ inp.st.g.edges)
-    (hne : inp.activeEdges ≠ []) :
+indicator of the active edges (also when every edge is ignored: the empty weight dictionary means
+demand 0 everywhere since fix 820f3e3) -/
+theorem dag_width_demands (inp : FlowInput) (e : Edge) (he : e ∈ inp.st.g.edges) :
     lookupD (dagWidthDemands inp.st (inp.st.sourceSinkEdges ++ inp.ignore)) e 0
       = if e ∈ inp.activeEdges then 1 else 0 :=
-  FP.dag_width_demands inp e he hne
+  FP.dag_width_demands inp e he
 
 /-! ### stated, not proven (cyclic models) -/
 
